@@ -1,6 +1,7 @@
 package main
 
 import (
+	"time"
 	"bytes"
 	"context"
 	"crypto/sha256"
@@ -26,6 +27,8 @@ type c17Case struct {
 	Mut     string `json:"mutation"`
 	FileHex string `json:"file_hex"`
 	Digest  string `json:"digest"`
+	Bogus   int    `json:"bogus_row,omitempty"`  // 1 + the row whose id in the index is not the digest of its range (0 = none)
+	Sched   uint64 `json:"sched_seed,omitempty"` // != 0: randomized-priority schedule at the workers' yield points
 	Got     string `json:"impl_result,omitempty"`
 	Want    string `json:"expected,omitempty"`
 	Model   string `json:"model_result,omitempty"`
@@ -56,15 +59,22 @@ func buildIndex(blob []byte, sizes []int) desync.Index {
 	return idx
 }
 
-func c17RunImpl(work string, file []byte, idx desync.Index, n int) (string, int, error) {
+func c17RunImpl(work string, file []byte, idx desync.Index, n int, sched uint64) (string, int, error) {
 	name := filepath.Join(work, "file")
 	if err := os.WriteFile(name, file, 0644); err != nil {
 		return "", 0, err
 	}
 	var feeds int64
+	var ch *vh.Chaos
+	if sched != 0 {
+		ch = vh.NewChaos(sched, 4, 40*time.Microsecond)
+	}
 	desync.VerifSetYieldHook(func(site string) {
 		if site == "verifyindex.feed" {
 			atomic.AddInt64(&feeds, 1)
+		}
+		if ch != nil {
+			ch.Hook(site)
 		}
 	})
 	defer desync.VerifSetYieldHook(nil)
@@ -76,6 +86,7 @@ func c17RunImpl(work string, file []byte, idx desync.Index, n int) (string, int,
 }
 
 func c17Check(a vh.Args, o *vh.Oracle, r *vh.Result, c *c17Case, corr bool) error {
+	r.Running(c)
 	blob := vh.UnHex(c.BlobHex)
 	file := vh.UnHex(c.FileHex)
 	if c.Digest == "sha256" {
@@ -84,17 +95,20 @@ func c17Check(a vh.Args, o *vh.Oracle, r *vh.Result, c *c17Case, corr bool) erro
 		desync.Digest = desync.SHA512256{}
 	}
 	idx := buildIndex(blob, c.Sizes)
-	got, feeds, err := c17RunImpl(a.Work, file, idx, c.N)
+	if c.Bogus > 0 && c.Bogus <= len(idx.Chunks) {
+		idx.Chunks[c.Bogus-1].ID[7] ^= 0x10
+	}
+	got, feeds, err := c17RunImpl(a.Work, file, idx, c.N, c.Sched)
 	if err != nil {
 		return err
 	}
 	c.Got = got
 	// the property predicate, independent of the model
 	c.Want = "err"
-	if bytes.Equal(file, blob) {
+	if bytes.Equal(file, blob) && c.Bogus == 0 {
 		c.Want = "nil"
 	}
-	key := fmt.Sprintf("%s|%d|%s|%d", c.Mut, c.N, c.Digest, len(c.Sizes))
+	key := fmt.Sprintf("%s|%d|%s|%d|%d", c.Mut, c.N, c.Digest, len(c.Sizes), c.Sched)
 	r.Count(key+"|"+c.FileHex[:min(16, len(c.FileHex))], len(c.Sizes) > 1 && c.Mut != "none")
 	r.Dist("mut:" + strings.SplitN(c.Mut, "@", 2)[0])
 	r.Dist("digest:" + c.Digest)
@@ -106,13 +120,16 @@ func c17Check(a vh.Args, o *vh.Oracle, r *vh.Result, c *c17Case, corr bool) erro
 		if c.Want == "nil" {
 			cls = "rejects-matching-file"
 		}
-		r.Fail("predicate", cls, fmt.Sprintf("VerifyIndex returned %s, file==blob is %v (mutation %s, n=%d, %d chunks)", got, c.Want == "nil", c.Mut, c.N, len(c.Sizes)), c)
+		r.Fail("predicate", cls, fmt.Sprintf("VerifyIndex returned %s, file==blob is %v, index row with a wrong id: %v (mutation %s, n=%d, %d chunks)", got, bytes.Equal(file, blob), c.Bogus > 0, c.Mut, c.N, len(c.Sizes)), c)
 	}
 	if corr && o != nil && c.Digest == "sha256" {
 		rows := make([]string, len(c.Sizes))
 		off := 0
 		for i, s := range c.Sizes {
 			sum := sha256.Sum256(blob[off : off+s])
+			if c.Bogus == i+1 {
+				sum[7] ^= 0x10
+			}
 			rows[i] = hex.EncodeToString(sum[:]) + ":" + strconv.Itoa(s)
 			off += s
 		}
@@ -323,6 +340,62 @@ func runC17(a vh.Args, o *vh.Oracle, r *vh.Result) error {
 				if err := c17Check(a, o, r, c, true); err != nil {
 					return err
 				}
+			}
+		}
+	}
+	// zero-size rows: an index may hold rows for an empty range (IndexFromReader accepts them anywhere but first);
+	// such a row is right when its id is the digest of the empty string and wrong otherwise
+	for k := 0; k < 8; k++ {
+		blob := rng.Bytes(40 + rng.Intn(400))
+		base := randomSizes(rng, len(blob), 1+rng.Intn(40))
+		pos := []int{0, 1, len(base) / 2, len(base) - 1, len(base)}[k%5]
+		if pos < 0 {
+			pos = 0
+		}
+		sizes := append(append(append([]int{}, base[:pos]...), 0), base[pos:]...)
+		if k >= 5 { // two in a row
+			sizes = append(append(append([]int{}, sizes[:pos]...), 0), sizes[pos:]...)
+		}
+		for _, n := range []int{1, 2, 1 + rng.Intn(64)} {
+			for _, bogus := range []int{0, pos + 1} {
+				c := &c17Case{BlobHex: vh.Hex(blob), Sizes: sizes, N: n, Mut: fmt.Sprintf("zero-size-row@%d", pos), FileHex: vh.Hex(blob), Digest: []string{"sha256", "sha512-256"}[k%2], Bogus: bogus}
+				if err := c17Check(a, o, r, c, true); err != nil {
+					return err
+				}
+			}
+		}
+	}
+	// a row with a wrong id in an otherwise matching index (any size)
+	for k := 0; k < 6; k++ {
+		blob := rng.Bytes(60 + rng.Intn(300))
+		sizes := randomSizes(rng, len(blob), 1+rng.Intn(30))
+		c := &c17Case{BlobHex: vh.Hex(blob), Sizes: sizes, N: 1 + rng.Intn(8), Mut: "wrong-id", FileHex: vh.Hex(blob), Digest: "sha256", Bogus: 1 + rng.Intn(len(sizes))}
+		if err := c17Check(a, o, r, c, true); err != nil {
+			return err
+		}
+	}
+	// schedules: several workers under randomized-priority schedules at the workers' yield points (start of a
+	// batch's validation, feeder): one altered byte must be found whichever worker gets which batch when
+	nsched := 40
+	if a.Tier == "thorough" {
+		nsched = 600
+	}
+	{
+		desync.Digest = desync.SHA256{}
+		blob := rng.Bytes(600)
+		sizes := randomSizes(rng, len(blob), 30)
+		for i := 0; i < nsched; i++ {
+			n := []int{2, 2, 3, 4, 8}[rng.Intn(5)]
+			ci := rng.Intn(len(sizes))
+			f := append([]byte{}, blob...)
+			f[chunkStart(sizes, ci)+rng.Intn(sizes[ci])] ^= 0x04
+			mut := fmt.Sprintf("sched-flip@%d", ci)
+			if i%8 == 7 {
+				f, mut = blob, "sched-none"
+			}
+			c := &c17Case{BlobHex: vh.Hex(blob), Sizes: sizes, N: n, Mut: mut, FileHex: vh.Hex(f), Digest: "sha256", Sched: 1 + rng.U64()%1000000}
+			if err := c17Check(a, o, r, c, i%10 == 0); err != nil {
+				return err
 			}
 		}
 	}
